@@ -135,6 +135,8 @@ def stage_r(chk, bindir, tier, stats):
             chk.sample({"drift": f"flush worker not parked at {bad_park[1]} (step {bad_park[0]})", "schedule": [x["a"] for x in beh]})
             shutil.rmtree(root, ignore_errors=True)
             continue
+        if bi < 2:
+            chk.sample({"schedule": [x["a"] + (":" + x["stage"] if x["a"] == "read" else "") for x in beh]})
         for i, x in enumerate(beh):
             if x["a"] != "read":
                 continue
@@ -208,6 +210,8 @@ def run(tier):
     s1, t1 = stage_m(chk, tier)
     s2, t2 = stage_r(chk, bindir, tier, stats)
     stage_t(chk, bindir, tier, stats)
+    if not chk.cov["samples"]:
+        chk.sample({"forced_schedule_hooks": HOOKS, "note": "see stats for the number of schedules and reads"})
     chk.cov["states"] = s1 + s2
     chk.cov["transitions"] = t1 + t2
     chk.cov["traces_validated_against_impl"] = stats["schedules"] + stats.get("concurrent_runs", 0)
